@@ -679,23 +679,32 @@ def run(ctx):
     ctx.cov['rule'] = (
         'server side: USERAUTH histories of 2-9 packets (requests for six user names incl. the empty one and names '
         'that saslprep rewrites or rejects; methods none / password (+change) / publickey query and signed with plain '
-        'keys and OpenSSH certificates / keyboard-interactive (+INFO_RESPONSE) / unsupported; signatures over a wrong '
-        'session id, user, service, by a wrong key, or damaged; truncated bodies; IGNORE, method-specific junk, channel '
-        'open and global request before and after success) sent by the independent MiniSSH peer to a real asyncssh '
-        'server whose begin_auth / validators answer from a generated table, synchronously or through futures that the '
-        'harness completes in a generated order, interleaved with packet delivery; a history is non-trivial when it has '
-        'at least two packets; distinct = distinct (world, executed operation list, outcome). 30 fixed scenarios run first. '
-        'client side: a real asyncssh client with password / key / certificate / agent-held key against a real server.')
+        'keys and OpenSSH certificates (wrong principal, empty principal list, expired, not yet valid, host type, '
+        'source-address) / keyboard-interactive (+INFO_RESPONSE) / unsupported; signatures over a wrong session id, '
+        'user, service, by a wrong key, damaged or empty; truncated bodies; IGNORE, method-specific junk, channel open '
+        'and global request before and after success) sent by the independent MiniSSH peer to a real asyncssh server '
+        'whose begin_auth / validators answer from a generated table, synchronously or through futures (and the '
+        'reload_config executor job) that the harness completes in a generated order, interleaved with packet delivery '
+        'at the granularity of single event-loop iterations; a history is non-trivial when it has at least two packets; '
+        'distinct = distinct (world, executed operation list, outcome). 40 fixed scenarios run first (one per mechanism '
+        'and per refuted theorem). client side: a real asyncssh client with password / key / certificate / agent-held '
+        'key against a real server.')
     ctx.cov['trusted_base'] += [
         'Model/Auth.v models _process_userauth_request, _finish_userauth, lookup_server_auth, the password / publickey / '
         'keyboard-interactive ServerAuth classes, validate_public_key (authorized_keys and certificate decision logic), '
-        'send_userauth_success/failure and the option getters; tied by the correspondence on every run',
+        'send_userauth_success/failure and the option getters; tied by the correspondence on every run; the variant '
+        '(code as it is / repaired) is chosen by running the stale-begin_auth witness against the tree under test',
         'application callbacks, utf-8 + saslprep, key / certificate blob decoding, signature verification, time and the '
-        'from= / source-address matches are parameters of the model (record `world`); theorems hold for every world',
+        'from= / source-address matches are parameters of the model (record `world`); theorems hold for every world; the '
+        'application is assumed to install the named user\'s authorized keys in begin_auth (documented pattern)',
         'signature verification is symbolic in Coq (a signature verifies exactly for the (key, data) it was made for); the '
         'Python oracle verifies Ed25519 with `cryptography`',
+        'on a connection that has been closed the correspondence only requires that the implementation did at least what '
+        'the model did (tasks already scheduled still run one step before _cleanup); the oracle still judges every '
+        'auth_completed() call',
         'not modelled: GSS and host-based authentication, X.509, re-keying and EXT_INFO during authentication, login '
-        'timeout, server config Match blocks re-evaluated by reload_config, MSG types other than 2, 50, 60-79, >= 80',
+        'timeout, server config Match blocks re-evaluated by reload_config, MSG types other than 2, 50, 60-79, >= 80; '
+        'the client-side method iteration has no model (oracle only)',
         'MiniSSH (independent SSH peer), deterministic executor and future-completing application of harness/c05_engine.py',
         'certificates in the pool are produced with asyncssh\'s own generator (codec is C16\'s subject)',
     ]
